@@ -101,6 +101,7 @@ pub fn p_strategy(pmax: u64) -> BoxedStrategy<u64> {
         3 => 1u64..=pmax,
         2 => Just(100u64),
         1 => 95u64..=105,
+        1 => prop_oneof![14u64..=21, 35u64..=40],
     ]
     .boxed()
 }
@@ -137,7 +138,7 @@ pub fn long_input_strategy(max_len: usize, allow_neg: bool) -> BoxedStrategy<Roo
 /// inputs constructed from a root R: R^k exactly, R^k +- 1 in a far digit; R chosen so that its
 /// digits after the p-th are a tie (5), 5000..0x, 4999..9x, zeros or nines
 pub fn constructed_strategy(k: u32, pmax: u64, allow_neg: bool) -> BoxedStrategy<RootCase> {
-    (gen::udigits(160), 1u64..=pmax, 0..8u8, 0usize..40, 0..3u8, 0u32..60, -700i64..=700, 0..7u8, any::<bool>(), 0u32..10)
+    (gen::udigits(160), 1u64..=pmax, 0..8u8, 0usize..40, 0..5u8, 0u32..60, -700i64..=700, 0..7u8, any::<bool>(), 0u32..10)
         .prop_map(move |(head, p, family, run, perturb, far, s, mode, neg, last)| {
             // head: exactly p digits
             let mut h = head.clone();
@@ -173,6 +174,24 @@ pub fn constructed_strategy(k: u32, pmax: u64, allow_neg: bool) -> BoxedStrategy
                     n = n * BigUint::from(10u8).pow(k * far) - 1u8;
                     shift = k * far;
                 }
+                3 | 4 => {
+                    // perturbation that is a multiple of a limb-structured modulus: invisible to
+                    // checks that look at low bits / limbs or work modulo 2^64 - 1
+                    let far = far.max(14);
+                    let c = BigUint::from(1 + last % 9);
+                    let m = match (far + last) % 7 {
+                        0 => (BigUint::from(1u8) << 64) - 1u8,
+                        1 => BigUint::from(1u8) << 64,
+                        2 => BigUint::from(1u8) << 96,
+                        3 => BigUint::from(1u8) << 120,
+                        4 => BigUint::from(1u8) << 128,
+                        5 => (BigUint::from(1u8) << 32) - 1u8,
+                        _ => BigUint::from(1u8) << 192,
+                    };
+                    let big = n * BigUint::from(10u8).pow(k * far.max(20) * 2);
+                    n = if perturb == 3 { big + c * m } else { big - c * m };
+                    shift = k * far.max(20) * 2;
+                }
                 _ => {}
             }
             // scale: k*s keeps the root's digits aligned to R; also try scales of every residue
@@ -180,7 +199,7 @@ pub fn constructed_strategy(k: u32, pmax: u64, allow_neg: bool) -> BoxedStrategy
             // value-preserving re-representation: z trailing zeros, scale + z (exact roots written
             // with a scale of every residue mod k)
             let z = (last as usize / 3) % 4;
-            let (n_str, scale) = if z > 0 && perturb != 2 { (format!("{}{}", n, "0".repeat(z)), scale + z as i64) } else { (n.to_string(), scale) };
+            let (n_str, scale) = if z > 0 && perturb != 2 && perturb != 4 { (format!("{}{}", n, "0".repeat(z)), scale + z as i64) } else { (n.to_string(), scale) };
             let int = if allow_neg && neg { format!("-{}", n_str) } else { n_str };
             RootCase { d: D::new(int, scale), p, mode }
         })
